@@ -164,8 +164,6 @@ def r5(ctx, prog):
                        'text also prints the truncation marker', floor=5)
     f = prog.fn1('LogPrintfFunc')
     tr = [(a, rhs) for a, rhs in q.assigns(f, 'LogContent::text_trunc')]
-    if len(tr) < 2:
-        raise AnalysisBroken('LogPrintfFunc: expected >=2 stores to text_trunc, found %d' % len(tr))
     maxname = ANON + '_LogTextMaxLength'
 
     def mentions_max(sid):
@@ -193,6 +191,26 @@ def r5(ctx, prog):
         cbs = f.cfg.controlling_branches(p)
         ok = any(mentions_max(c) and f.s(f.strip_casts(c))['k'] == 'BinaryOperator' for c, k, b in cbs)
         ctx.ob('C09.R5', '%s|trunc-guard@%d' % (f.name, tr.index((a, rhs))), ok, 'text_trunc = true is control dependent on a comparison with the maximum length', where=f.loc(a['i']))
+    # every clamp (a store of the limit, or limit + 1 as the buffer size) marks the record truncated in the same block
+    clamps = []
+    for st in f.stmts:
+        if st and st['k'] == 'BinaryOperator' and st.get('op') == '=' and mentions_max(st['ch'][1]) and not mentions_max(st['ch'][0]):
+            l = f.s(f.strip_casts(st['ch'][0]))
+            if l and l['k'] in ('MemberExpr', 'DeclRefExpr') and st not in [a for a, r_ in tr]:
+                blk = f.enclosing(st['i'], ('CompoundStmt',))
+                # the initial buffer size (min(2048, max) + 1) and the re-use of an already truncated length are not clamps
+                if any(f.stmts[x]['k'] == 'CallExpr' and f.stmts[x].get('callee', '').startswith('std::min') for x in f.walk(st['ch'][1])):
+                    continue
+                if any(br == 'then' and any(x.endswith('text_trunc') for x in q.subtree_fields(f, c)) for c, br in q.lexical_guards(f, st['i'])[:1]):
+                    continue
+                clamps.append((st, blk))
+    for st, blk in clamps:
+        marked = blk is not None and any(a['i'] in set(f.walk(blk)) for a, r_ in tr if f.s(f.strip_casts(r_)).get('v') is True)
+        ctx.ob('C09.R5', '%s|clamp-marks@%s' % (f.name, f.path(st['ch'][0])), marked,
+               'clamping %s to the limit is accompanied by text_trunc = true in the same block' % f.path(st['ch'][0]) if marked else
+               '%s is cut to the maximum length without marking the record as truncated' % f.path(st['ch'][0]), where=f.loc(st['i']))
+    if len(clamps) < 2:
+        raise AnalysisBroken('LogPrintfFunc: expected >=2 clamp sites, found %d' % len(clamps))
     # the length reported never exceeds the limit: every store to content.text_len is either the limit itself, or a value
     # compared against the limit / the buffer size on a dominating branch
     for a, rhs in q.assigns(f, 'LogContent::text_len'):
